@@ -78,6 +78,18 @@ func judge(s caseSpec, lg caseLog) (j judged) {
 	if lg.Panic != "" {
 		add("throttler:panic", "throttler panicked: %s", lg.Panic)
 	}
+	if lg.Skip != "" {
+		j.inconcl = lg.Skip + "|"
+		return
+	}
+	if lg.Hung {
+		if lg.Panic != "" {
+			add("throttler:hang-after-panic", "after the panic the case never finished (30 s): other calls block for ever, the panicking call left the lock held")
+		} else {
+			j.inconcl = "case did not finish within 30 s|"
+		}
+		return
+	}
 	m := mkModel(s)
 	inRange := func(where string, l int64) bool {
 		if l < 0 || l > int64(m.n-1) {
